@@ -587,10 +587,14 @@ impl Store {
                 let tags = filter.tags()?;
                 for mut tag in tags.iter() {
                     if let Some(tag0) = tag.next() {
+                        // an empty tag name has no index entries
+                        let Some(&letter) = tag0.first() else {
+                            continue;
+                        };
                         if let Some(tagvalue) = tag.next() {
                             let iter = self.indexes.atc_iter(
                                 author,
-                                tag0[0],
+                                letter,
                                 tagvalue,
                                 since,
                                 filter.until(),
@@ -642,10 +646,14 @@ impl Store {
                 let tags = filter.tags()?;
                 for mut tag in tags.iter() {
                     if let Some(tag0) = tag.next() {
+                        // an empty tag name has no index entries
+                        let Some(&letter) = tag0.first() else {
+                            continue;
+                        };
                         if let Some(tagvalue) = tag.next() {
                             let iter = self.indexes.ktc_iter(
                                 kind,
-                                tag0[0],
+                                letter,
                                 tagvalue,
                                 since,
                                 filter.until(),
@@ -696,10 +704,14 @@ impl Store {
             let tags = filter.tags()?;
             for mut tag in tags.iter() {
                 if let Some(tag0) = tag.next() {
+                    // an empty tag name has no index entries
+                    let Some(&letter) = tag0.first() else {
+                        continue;
+                    };
                     if let Some(tagvalue) = tag.next() {
                         let iter =
                             self.indexes
-                                .tc_iter(tag0[0], tagvalue, since, filter.until(), &txn)?;
+                                .tc_iter(letter, tagvalue, since, filter.until(), &txn)?;
 
                         let mut rangecount = 0;
 
